@@ -31,11 +31,12 @@ def model_cases(ctx):
     maps and shortest vectors."""
     geoms = [("sc", dmh.diag(2, 2, 2), dmh.P1), ("sc", dmh.ROT45x2, dmh.PSHEAR),
              ("cscl", dmh.ROT45, dmh.P1), ("bcc", dmh.FCCLIKE, dmh.PI), ("nacl", dmh.diag(1, 1, 1), dmh.PF),
-             ("hcp", dmh.HEX3, dmh.P1), ("tric", dmh.diag(2, 1, 1), dmh.P1), ("tetab", dmh.ROT45, dmh.P1)]
+             ("hcp", dmh.HEX3, dmh.P1), ("tric", dmh.diag(2, 1, 1), dmh.P1), ("tetab", dmh.ROT45, dmh.P1),
+             ("naclg", dmh.diag(1, 1, 1), dmh.PF), ("wz", dmh.diag(1, 1, 1), dmh.P1), ("sc", dmh.diag(3, 3, 3), dmh.P1)]
     if not ctx.quick:
-        geoms += [("sc", dmh.diag(3, 3, 3), dmh.P1), ("sc", dmh.DET3, dmh.PSWAP), ("sc", dmh.BCCLIKE, dmh.P1),
+        geoms += [("sc", dmh.DET3, dmh.PSWAP), ("sc", dmh.BCCLIKE, dmh.P1),
                   ("sc", dmh.diag(3, 1, 1), dmh.P1), ("cscl", dmh.diag(2, 2, 1), dmh.P1), ("bcc", dmh.diag(2, 1, 1), dmh.PI),
-                  ("naclg", dmh.diag(1, 1, 1), dmh.PF), ("hcp", dmh.diag(2, 2, 1), dmh.P1), ("wz", dmh.diag(1, 1, 1), dmh.P1),
+                  ("hcp", dmh.diag(2, 2, 1), dmh.P1),
                   ("cscl", dmh.diag(2, 2, 2), dmh.P1), ("cscl", dmh.FCCLIKE, dmh.P1), ("cscl", dmh.DET3, dmh.P1),
                   ("bcc", dmh.diag(2, 2, 2), dmh.PI), ("nacl", dmh.diag(2, 1, 1), dmh.PF), ("nacl", dmh.ROT45, dmh.PF),
                   ("hcp", dmh.diag(2, 2, 2), dmh.P1), ("wz", dmh.diag(2, 1, 1), dmh.P1), ("wz", dmh.HEX3, dmh.P1),
@@ -82,7 +83,7 @@ def run(ctx):
     # ---- 1. design level: the model on its own supercells ------------------------------------
     mgeoms, mcases = model_cases(ctx)
     invs = ["ReqCaseWellFormed", "ReqSvecCongruent", "ReqMultiplicity", "ReqMasses", "CommQComplete",
-            "AssumeSearchComplete"] + dmh.INV_C02 + ["Hermitian", "GPeriodic"]
+            "AssumeSearchComplete", "TermsAreSpringsTerms"] + dmh.INV_C02 + ["Hermitian", "GPeriodic"]
     res, pubs = dmh.run_tlc(ctx, "DynMat", mcases, invs, workers=6, coverage=False)
     dmh.report_tlc(ctx, res, "model", set(invs), "DynMat model")
     n_short = sum(1 for p in pubs.values() if p["out"]["shortRange"])
@@ -120,7 +121,7 @@ def run(ctx):
     ctx.traces += len(events)
     ctx.extra["events"] = len(events)
     ctx.extra["geometries"] = len(geoms)
-    ctx.extra["max_supercell_atoms"] = max(len(e["atoms"]) for e in events)
+    ctx.extra["max_supercell_atoms"] = max([len(e["atoms"]) for e in events] or [0])
     tinv = dmh.INV_STRUCT + dmh.INV_C02 + dmh.INV_ASSUME + dmh.INV_CONF + ["Hermitian", "GPeriodic"]
     cases = [dmh.event_tla(ev) for ev in events]
     res, pubs = dmh.run_tlc(ctx, "DynMatTrace", cases, tinv, workers=6)
@@ -129,10 +130,11 @@ def run(ctx):
                                   % (len(pubs), len(events)))
     dmh.report_tlc(ctx, res, "trace", set(tinv), "real session", pubs)
     # the trace specification rejects wrong tables (corrupted copies of a recorded event)
-    probe_ev = next(e for e in events if e["entry"] == "sc" and max(max(r) for r in e["mult"]) > 1)
-    dmh.binding_selfcheck(ctx, probe_ev, dmh.oracle("sc", ctx.seed))
-    probe_ev = next(e for e in events if e["entry"] == "nacl" and len(e["atoms"]) == 16)
-    dmh.binding_selfcheck(ctx, probe_ev, dmh.oracle("nacl", ctx.seed))
+    if not ctx.violations:
+        for ent, pred in (("sc", lambda e: max(max(r) for r in e["mult"]) > 1), ("nacl", lambda e: len(e["atoms"]) == 16)):
+            probe_ev = next((e for e in events if e["entry"] == ent and pred(e)), None)
+            if probe_ev is not None and (ent == "sc" or not ctx.quick):
+                dmh.binding_selfcheck(ctx, probe_ev, dmh.oracle(ent, ctx.seed))
     if len(pubs) != len(events) and not ctx.violations:
         raise dmh.tlcmod.MachineryError("trace run published %d of %d events" % (len(pubs), len(events)))
 
@@ -158,7 +160,7 @@ def run(ctx):
             idx = sorted(rng.choice(len(comm), size=16, replace=False).tolist())
             comm = [comm[0]] + [comm[i] for i in idx if i != 0]
         probe = anyp.probe_q_prim()
-        nrand = 3 if ctx.quick else 12
+        nrand = 3 if ctx.quick else 40
         rand = [rng.uniform(-1.5, 1.5, size=3) for _ in range(nrand)]
         qs = [("comm", q) for q in comm] + [("probe", q) for q in probe] + [("random", q) for q in rand]
         stats["comm_q"] += len(comm)
